@@ -10,7 +10,20 @@ ASSUMPTIONS = [
     'attention: weights are compared with a numpy softmax over the allowed positions within 1e-9; non-interference oracles demand bit-identical outputs under perturbation of ignored positions',
     'the float32 fast path of nnx attention is compared with Linen within 1e-5',
 ]
-HEADER = 'From Flaxm Require Import Lib.Harness Model.Seq.\nOpen Scope Z_scope.\n'
+HEADER = '''From Coq Require Import QArith Qabs.
+From Flaxm Require Import Lib.Harness Model.Seq Model.Layers Model.Attn.
+Close Scope Q_scope.
+Open Scope Z_scope.
+(* power-of-two attention: every query with an allowed key has the model's weights (relative tolerance 1e-9) and outputs (1e-9; 1e-5 for the float32 fast path of nnx) *)
+Definition closeq9 (a b : Q) : bool := qclose (1 # 1000000000) a b.
+Fixpoint all2 {A B} (f : A -> B -> bool) (a : list A) (b : list B) : bool :=
+  match a, b with [], [] => true | x :: a', y :: b' => f x y && all2 f a' b' | _, _ => false end.
+Definition attn_rows_ok (otol : Q) (dv : nat) (qs ks vs bias : list (list Z)) (mask : list (list bool)) (w o : list (list Q)) : bool :=
+  all2 (fun qbm wo => let '(q, b, m) := qbm in let '(wr, orow) := wo in
+          negb (existsb (fun x => x) m) ||
+          (all2 closeq9 wr (weights (logits_of q ks b) m) && all2 (qclose otol) orow (attend dv q ks b m vs)))
+       (combine (combine qs bias) mask) (combine w o).
+'''
 TOL = 1e-9
 
 
@@ -55,6 +68,25 @@ def gen_attention(rng):
   return {'test': 'attention', 'seed': rng.randint(0, 10 ** 6), 'batch': B, 'Tq': Tq, 'Tk': Tk, 'heads': H, 'dim': rng.randint(1, 3), 'bias': rng.random() < 0.4, 'mask': mask}
 
 
+def gen_pow2attn(rng):
+  Tq, Tk, D = rng.randint(1, 3), rng.randint(1, 5), rng.randint(1, 3)
+  Dv = D          # the nnx fast path (jax.nn.dot_product_attention) wants values of the key depth
+  kind = rng.choice(['none', 'random', 'causal', 'padding'])
+  mask = None
+  if kind != 'none':
+    m = np.ones((Tq, Tk), dtype=bool)
+    if kind == 'random':
+      m &= np.array([rng.random() < 0.6 for _ in range(m.size)]).reshape(m.shape)
+    elif kind == 'causal':
+      m &= np.tril(np.ones((Tq, Tk), dtype=bool))
+    else:
+      m[:, rng.randint(1, Tk):] = False
+    mask = m.tolist()
+  return {'test': 'pow2attn', 'q': [[rng.randint(-2, 2) for _ in range(D)] for _ in range(Tq)], 'k': [[rng.randint(-2, 2) for _ in range(D)] for _ in range(Tk)],
+          'v': [[rng.randint(-9, 9) for _ in range(Dv)] for _ in range(Tk)], 'bias': ([[rng.randint(-3, 3) for _ in range(Tk)] for _ in range(Tq)] if rng.random() < 0.5 else None),
+          'mask': mask}
+
+
 def gen_masks(rng):
   nq, nk = rng.randint(1, 5), rng.randint(1, 5)
   big = rng.random() < 0.3           # values a half-precision float cannot represent exactly
@@ -91,7 +123,7 @@ def run(chk):
   rng = chk.rng
   thorough = chk.tier == 'thorough'
   chk.proofs(PROOF_FILES)
-  gens = [gen_int_rnn, gen_int_rnn, gen_real_rnn, gen_attention, gen_attention, gen_decode, gen_masks]
+  gens = [gen_int_rnn, gen_int_rnn, gen_real_rnn, gen_attention, gen_attention, gen_decode, gen_masks, gen_pow2attn]
   cases = [gens[i % len(gens)](rng) for i in range(2400 if thorough else 300)]
   W = 14
   results = common.run_impl_parallel('impl_c13.py', [{'cases': cases[i::W]} for i in range(W)], workers=W, timeout=3000)
@@ -159,6 +191,21 @@ def run(chk):
         parts = clist([copt(None if i in c['none'] else cb(p)) for i, p in enumerate(c['parts'])])
         row.append('option_beq (%s) (combine_masks %s) %s' % (bb, parts, copt(None if g['combined'] is None else cb(g['combined']))))
         rows.append(((t + ':' + api, c, o), '(' + ' && '.join(row) + ')'))
+    elif t == 'pow2attn':
+      from c12_coq import cq
+      Tq, Tk = len(c['q']), len(c['k'])
+      zl = lambda l: clist([cZ(int(v)) for v in l])
+      zll = lambda ll: clist([zl(l) for l in ll])
+      bias = c['bias'] if c['bias'] is not None else [[0] * Tk for _ in range(Tq)]
+      mask = c['mask'] if c['mask'] is not None else [[True] * Tk for _ in range(Tq)]
+      for api in ('linen', 'nnx'):
+        g = r[api]
+        if not all(np.isfinite(np.array(g['w'])[i]).all() for i in range(Tq) if any(mask[i])):
+          chk.violation('oracle', '%s attention weights of a query with an allowed key are not finite' % api, {'case': c, 'observed': g})
+          continue
+        qll = lambda ll: clist([clist([cq(v) if np.isfinite(v) else '0%Q' for v in l]) for l in ll])
+        rows.append(((t + ':' + api, c, o), '(attn_rows_ok %s %s %s %s %s %s %s %s %s)' % (
+            '(1 # 1000000000)%Q' if api == 'linen' else '(1 # 100000)%Q', cnat(len(c['v'][0])), zll(c['q']), zll(c['k']), zll(c['v']), zll(bias), clist([clist([cbool(bool(b)) for b in row]) for row in mask]), qll(g['w']), qll(g['o']))))
     elif t == 'attention':
       if not r['dev_weights'] <= TOL or not r['dev_output'] <= 1e-8:
         chk.violation('oracle', 'attention weights / outputs over the allowed positions are not the softmax of scaled dot products plus bias', {'case': c, 'observed': r})
@@ -187,5 +234,5 @@ def run(chk):
   chk.notes['by_test'] = stat
   chk.cov['rule'] = ('integer-cell RNNs in Linen and NNX: batch shapes (), (b,), (b1,b2), T 1-6, seq_lengths in [1,T], reverse, keep_order, time_major, initial carries, Bidirectional; real cells '
                      '(LSTM, OptimizedLSTM, GRU, Simple, MGU) against their recurrences and the manual loop, padded inputs perturbed; attention with random / causal / padding / combined masks and '
-                     'bias, ignored keys and values perturbed; stepwise decode vs whole-sequence causal attention in Linen and NNX on the same parameters. distinct by canonical JSON hash')
+                     'bias, ignored keys and values perturbed; power-of-two attention (integer q / k / v / bias in units of ln 2, masks) against the rational model; stepwise decode vs whole-sequence causal attention in Linen and NNX on the same parameters. distinct by canonical JSON hash')
   chk.cov['trusted_base'] = ['Coq 8.16.1 kernel + vm_compute', 'harness/c13.py, impl_c13.py (numpy recurrences and softmax)', 'harness/jaxcompat.py', 'float64 arithmetic']
